@@ -318,6 +318,9 @@ func (r *transport) handleCacheHit(
 
 	// Fresh (this includes RFC 8246 immutable responses and staleness accepted through
 	// max-stale), or the request may not use the network.
+	if reqMaxAge, ok := ccReq.MaxAge(); ok && reqMaxAge == 0 && ccReq.OnlyIfCached() {
+		return make504Response(req) // nothing stored satisfies "max-age=0"
+	}
 	if !freshness.IsStale || ccReq.OnlyIfCached() {
 		return r.serveFromCache(
 			req,
